@@ -55,6 +55,31 @@ def scenario_tie(name, fn, n_quick, n_thorough):
                shard=60, timeout=60)
 
 
+def fault_sweep_tie(kinds=None, per_kind_quick=4, per_kind_thorough=40, name='fault_sweep'):
+    """every entry of the program-fault catalogue (or the given ones), several programs each: the proved model decides
+    whether the fault makes the program unacceptable, the implementation must agree"""
+    from .sysprog import FAULTS, gen_program
+
+    def gen(rng, tier):
+        out = []
+        n = per_kind_quick if tier == 'quick' else per_kind_thorough
+        for k in (kinds or FAULTS):
+            needs_inc = 'include' in k or k in ('cross_file',)
+            prof = dict(PROFILES['general'], p_fault=1.0, force_fault=k, p_include=1.0 if needs_inc else 0.3)
+            got = 0
+            for _ in range(n * 6):
+                c = gen_program(rng, prof, tier)
+                if c.get('fault') == k:
+                    out.append(c)
+                    got += 1
+                    if got == n:
+                        break
+        return out
+    return Tie(name=name, imports=['Base', 'Program'], run_def='run_prog', eqb='obs_prog_eqb', gen=gen,
+               impl=sysgen.impl_assemble, case_term=sysgen.case_term, obs_term=sysgen.obs_term, nontrivial=nontrivial,
+               classify=lambda c: c.get('fault') or 'none', shard=60, timeout=60)
+
+
 def cli_gen(profile, n_quick, n_thorough):
     def gen(rng, tier):
         n = n_quick if tier == 'quick' else n_thorough
@@ -98,6 +123,14 @@ def isa_tie(profile=None, n_quick=300, n_thorough=6000, name='isa'):
                impl=sysgen.impl_assemble, case_term=sysisa.isa_case_term, obs_term=sysgen.obs_term,
                nontrivial=lambda c: True,
                classify=lambda c: 'macros' if c['isa']['macros'] else 'instrs', shard=40, timeout=60)
+
+
+def macro_scenario_tie(n_quick=150, n_thorough=3000):
+    from . import sysisa
+    return Tie(name='macro_scenarios', imports=['Base', 'Program', 'Match', 'ProgramIsa'], run_def='run_prog_isa', eqb='obs_prog_eqb',
+               gen=lambda rng, tier: [sysisa.gen_macro_scenario(rng, None, tier) for _ in range(n_quick if tier == 'quick' else n_thorough)],
+               impl=sysgen.impl_assemble, case_term=sysisa.isa_case_term, obs_term=sysgen.obs_term,
+               nontrivial=lambda c: True, classify=lambda c: 'macro-scenario', shard=40, timeout=60)
 
 
 def _paste_check(pair):
